@@ -60,7 +60,13 @@ Section Tree.
   (** a printed row: amount, indentation level, label *)
   Definition row := (T * nat * bytes)%type.
 
-  (** printNode on a tree whose children are already in key order *)
+  (** Go's [==] on two amounts: [-0 == +0], NaN is equal to nothing *)
+  Definition t_eqb (a b : T) : bool :=
+    negb (ltb NM a b) && negb (ltb NM b a) && negb (is_nan NM a) && negb (is_nan NM b).
+
+  (** printNode on a tree whose children are already in key order; the last two
+      levels are combined only when the category has no entries of its own
+      (its total equals its only child's: fix 3cc3ec3) *)
   Fixpoint print_node (collapse_last : bool) (level : nat) (t : tree) : list row :=
     match t with
     | Node _ _ ch =>
@@ -68,7 +74,7 @@ Section Tree.
           match child with
           | Node cn ct [] => [(ct, level, cn)]
           | Node cn ct [Node gn gt []] =>
-              if collapse_last then [(ct, level, cn ++ [c_slash] ++ gn)]
+              if (collapse_last && t_eqb gt ct)%bool then [(ct, level, cn ++ [c_slash] ++ gn)]
               else (ct, level, cn) :: print_node collapse_last (S level) child
           | Node cn ct _ => (ct, level, cn) :: print_node collapse_last (S level) child
           end) ch
@@ -76,14 +82,18 @@ Section Tree.
 
   (** printNodeCollapsed: [jump_print level tot acc t] follows the chain of sole
       children from [t] ([acc] = names so far, [tot] = total of the node the
-      chain started at), prints the joined row where the chain ends and goes on
-      below *)
+      chain started at), prints the joined row where the chain ends - at a leaf,
+      at a fork, or at a category with entries of its own (total different from
+      its only child's: fix 3cc3ec3) - and goes on below *)
   Fixpoint jump_print (level : nat) (tot : T) (acc : list bytes) (t : tree) : list row :=
     match t with
-    | Node n _ [only] => jump_print level tot (acc ++ [n]) only
-    | Node n _ ch =>
-        (tot, level, join [c_slash] (acc ++ [n]))
-          :: flat_map (fun c => jump_print (S level) (t_total c) [] c) ch
+    | Node n x ch =>
+        (* no [let] for the row-and-children alternative: extraction to OCaml would evaluate it eagerly at every link of a chain *)
+        match ch with
+        | [only] => if t_eqb (t_total only) x then jump_print level tot (acc ++ [n]) only
+                    else (tot, level, join [c_slash] (acc ++ [n])) :: flat_map (fun c => jump_print (S level) (t_total c) [] c) ch
+        | _ => (tot, level, join [c_slash] (acc ++ [n])) :: flat_map (fun c => jump_print (S level) (t_total c) [] c) ch
+        end
     end.
 
   Definition print_collapsed (t : tree) : list row :=
